@@ -55,10 +55,19 @@ class _Infeasible(Exception):
 
 
 class Path:
-    __slots__ = ('guards', 'events', 'outcome', 'lines')
+    __slots__ = ('guards', 'events', 'outcome', 'lines', 'gpos')
 
-    def __init__(self, guards, events, outcome, lines):
+    def __init__(self, guards, events, outcome, lines, gpos=None):
         self.guards = guards; self.events = events; self.outcome = outcome; self.lines = lines
+        # gpos[i]: number of events that had happened when guards[i] was decided (program order of decisions relative to calls / stores)
+        self.gpos = gpos if gpos is not None else []
+
+    def guard_pos(self, atom):
+        """number of events that preceded the decision on atom (None: not decided on this path)"""
+        for i, (a, t) in enumerate(self.guards):
+            if a == atom:
+                return self.gpos[i] if i < len(self.gpos) else None
+        return None
 
     def guard_of(self, atom):
         for a, t in self.guards:
@@ -221,20 +230,20 @@ class SymExec:
         while stack:
             dec = stack.pop()
             self.dec = dec; self.di = 0
-            self.guards = []; self.events = []; self.lines = []
+            self.guards = []; self.events = []; self.lines = []; self.gpos = []
             self.eq = {}; self.ne = {}
             self.depth = 0
             self.cur_unit = u
             try:
                 v = self.call_fn(u, fn, list(args))
-                out.append(Path(self.guards, self.events, ('ret', v) if v is not None else ('end',), self.lines))
+                out.append(Path(self.guards, self.events, ('ret', v) if v is not None else ('end',), self.lines, self.gpos))
             except _NeedChoice as e:
                 for a in range(e.n - 1, -1, -1):
                     stack.append(dec + [a])
             except _Infeasible:
                 pass
             except _NoReturn as e:
-                out.append(Path(self.guards, self.events, ('noreturn', e.fn, e.args_, e.line), self.lines))
+                out.append(Path(self.guards, self.events, ('noreturn', e.fn, e.args_, e.line), self.lines, self.gpos))
             if len(out) + len(stack) > self.max_paths:
                 raise Unsupported('path explosion in %s' % fname)
         return out
@@ -383,7 +392,7 @@ class SymExec:
             if self.eq.get(v) == c:
                 raise _Infeasible()
             self.ne.setdefault(v, set()).add(c)
-        self.guards.append((atom, truth))
+        self.guards.append((atom, truth)); self.gpos.append(len(self.events))
 
     def truth(self, v):
         v = strip_widening(v)
@@ -420,7 +429,7 @@ class SymExec:
             return self.eq[v] != 0
         i = self.choose(2)
         r = (i == 0)
-        self.guards.append((v, r))
+        self.guards.append((v, r)); self.gpos.append(len(self.events))
         if not r:
             self.eq[v] = 0
         else:
